@@ -136,6 +136,9 @@ def run(ctx: Ctx) -> dict:
                 api_ops.append({"op": rng.choice(("iban.new", "iban.validate")), "t": cps(iban), "vb": True})
                 if rng.random() < 0.2:
                     api_ops.append({"op": "bban.nat", "t": cps(iban)})
+    import fuzz
+    api_ops = fuzz.extend(ctx, api_ops, "c07api", n_seeds=800)
+    ops = fuzz.extend(ctx, ops, "c07", n_seeds=1600, methods=METHODS)
     events = calls.execute(ctx, lit_ops + ops + api_ops, "c07")
     mism = calls.validate(ctx, "TraceNational", events, env, "c07", per_shard=12000)
     # the literals first: a disagreement there is a defect of the SPEC (or of spec and code alike)
